@@ -613,7 +613,10 @@ func monitorOK(c *hc.Ctx, line string, u *ucase, res uresult, ids []int, big boo
 	if n > 1 && !(first%1024 == 0 && 524288%first == 0) {
 		fail("part-size-invalid", fmt.Sprintf("part size %d", first))
 	}
-	if u.ps == 0 && u.size <= 3999*524288 && n > 3999 {
+	// (unknown total size: the part size cannot be chosen from the size — streamed uploads beyond
+	// 3999·128 KiB exceed the limit by construction; the property speaks of automatic sizing, which needs
+	// the size; see notes/C32.md)
+	if u.ps == 0 && u.declared >= 0 && u.size <= 3999*524288 && n > 3999 {
 		fail("autosize-over-3999", fmt.Sprintf("%d parts", n))
 	}
 	// descriptor
